@@ -44,7 +44,8 @@ def main():
     old = {"findings": []}
     if os.path.exists(path):
         old = json.load(open(path, encoding="utf-8"))
-    keep = [f for f in old["findings"] if f.get("status") == "fixed" or f.get("manual")]
+    fixed_path = os.path.join(env.VERIF, "known_findings_fixed.json")
+    keep = json.load(open(fixed_path, encoding="utf-8"))["fixed"] if os.path.exists(fixed_path) else []
     out = list(keep)
     from vf import findings
     from vf import universe as U
